@@ -33,6 +33,8 @@ type c12Decl struct {
 	F     float64           `long:"flt"`
 	Du    time.Duration     `long:"dur"`
 	D     string            `long:"dflt" default:"dv"`
+	PS    *string           `long:"ps"`
+	LD    []string          `long:"ld" default:"" default:""`
 	NoIni string            `long:"noini" no-ini:"true"`
 	Hid   string            `long:"hid" hidden:"true"`
 	Inner c12Inner          `group:"Inner"`
@@ -66,6 +68,9 @@ func H_C12_roundtrip(v *V) {
 	if v.Shape("oneopt") == 1 {
 		// a single write-option set (used for the longest values)
 		opts = IniIncludeDefaults
+	} else if v.Shape("oneopt") == 2 {
+		// only options that differ from their defaults are written
+		opts = IniNone
 	} else {
 		switch v.Choice(4) {
 		case 1:
@@ -120,6 +125,18 @@ func H_C12_roundtrip(v *V) {
 		d1.Cmd.CL = []string{v.String(1)}
 	case 10:
 		d1.Cmd.CG.GS = v.String(lv)
+	case 11:
+		// a pointer option: unset, or set (possibly to the empty string)
+		if v.Choice(2) == 1 {
+			x := v.String(lv)
+			d1.PS = &x
+		}
+	case 12:
+		// a slice option with two (empty) defaults holding one or two other elements
+		d1.LD = []string{v.String(lv)}
+		if v.Shape("oneopt") == 0 && v.Choice(2) == 1 {
+			d1.LD = append(d1.LD, v.String(1))
+		}
 	}
 	var buf bytes.Buffer
 	NewIniParser(p1).Write(&buf, opts)
@@ -137,6 +154,8 @@ func H_C12_roundtrip(v *V) {
 	v.Reach("read-back")
 	v.Assert(v.EqStr(d2.S, d1.S) && v.EqStr(d2.Named, d1.Named) && v.EqStr(d2.D, d1.D), "string options are reproduced exactly (surrounding blanks, quotes, control and non-ASCII bytes, empty)")
 	v.Assert(v.EqStrs(d2.L, d1.L), "slices are reproduced exactly")
+	v.Assert(v.EqStrs(d2.LD, d1.LD), "a slice with declared defaults is reproduced exactly (also when its text rendering coincides with the defaults')")
+	v.Assert((d2.PS == nil) == (d1.PS == nil) && (d1.PS == nil || d2.PS == nil || v.EqStr(*d2.PS, *d1.PS)), "a pointer option is reproduced exactly (unset stays unset, empty stays empty)")
 	v.Assert(len(d2.M) == len(d1.M) && len(d2.MI) == len(d1.MI), "maps keep their entries")
 	for k, x := range d1.M {
 		y, ok := d2.M[k]
